@@ -116,6 +116,8 @@ impl GraphRunner for Graph {
             .resize(self.blocks.len(), std::time::Duration::default());
         let mut eof = vec![false; self.blocks.len()];
         loop {
+            #[cfg(feature = "verif-hooks")]
+            crate::verif::point(crate::verif::pt::ST_PASS_START, 0, 0);
             let mut done = true;
             let mut all_idle = true;
             if self.cancel_token.is_canceled() {
